@@ -33,6 +33,7 @@ RULE = (
 )
 ASSUMPTIONS = [
     "the reference (pristine) object is built by constructors only from the model's specification tree -- never via set_params or clone",
+    "after a direct set_params on a NESTED object (not through the parent) the parent is not reset by sktime: its outputs may reflect either the current configuration or the configuration at its last fit",
     "a wrapper (ChangeScore / Saving) whose shared inner cost was refitted through another wrapper since its own last fit is not judged until it is refitted (aliasing chosen by the user)",
     "the caller may overwrite its own data buffer in place between calls (worlds *-mutable-buffer); 'the data given to the last fit' means its contents at that time",
     "a scorer shared with a detector may, on direct evaluate, reflect its last explicit fit OR any data a sharing detector was given since (the statement does not fix whether a detector's internal refit counts)",
@@ -76,7 +77,7 @@ CUTS_CANON = {k: H.canon_value(v) for k, v in CUTS.items()}
 
 
 class MObj:
-    __slots__ = ("spec", "fitted", "fitdata", "extra", "role", "stale")
+    __slots__ = ("spec", "fitted", "fitdata", "extra", "role", "stale", "fitspec")
 
     def __init__(self, spec, role):
         self.spec, self.role = spec, role
@@ -84,16 +85,22 @@ class MObj:
         # stale: a wrapper whose shared inner scorer was refitted through ANOTHER object since its own last
         # fit; its evaluate is then not determined by its own last fit (aliasing chosen by the user) and is not judged
         self.stale = False
+        # fully inlined specification at the time of the last fit: if a NESTED object referenced by this one is
+        # re-configured directly afterwards (its own set_params, not this object's), this object is not reset and its
+        # fitted state still reflects the old configuration; either reading of "current hyper-parameters" is accepted
+        self.fitspec = None
 
     def copy(self):
         m = MObj(self.spec.copy(), self.role)
         m.fitted, m.fitdata, m.extra, m.stale = self.fitted, self.fitdata, self.extra, self.stale
+        m.fitspec = self.fitspec
         return m
 
 
 def model_canon(model):
     res = lambda ref: model[ref[1:]].spec  # noqa: E731
-    return tuple((n, m.spec.canon(None), m.fitted, m.fitdata, tuple(sorted(m.extra)), m.stale) for n, m in sorted(model.items()))
+    return tuple((n, m.spec.canon(None), m.fitted, m.fitdata, tuple(sorted(m.extra)), m.stale,
+                  m.fitspec.canon(None) if m.fitspec is not None else None) for n, m in sorted(model.items()))
 
 
 def refs_of(spec, model, acc=None):
@@ -364,16 +371,17 @@ class Explorer:
         self.outputs = set()
 
     # -- pristine reference ----------------------------------------------------------
-    def pristine(self, model, name, fitted, fitdata, method, arg):
+    def pristine(self, model, name, fitted, fitdata, method, arg, spec=None):
         m = model[name]
         res = lambda ref: model[ref[1:]].spec  # noqa: E731
-        key = (m.spec.canon(res), fitted, fitdata, method, arg)
+        spec = m.spec if spec is None else spec
+        key = (spec.canon(res), fitted, fitdata, method, arg)
         if key in self.memo:
             return self.memo[key]
         if self.gcur != self.g0d:
             self.G.restore(self.g0)
         try:
-            obj = H.build(m.spec, res)
+            obj = H.build(spec, res)
             if fitted:
                 obj.fit(DATA[fitdata].copy())
             out = ("ok", self.call(obj, method, arg, fresh=True))
@@ -431,6 +439,12 @@ class Explorer:
             method = {"predict": "predict", "transform": "transform", "tscores": "transform_scores"}[kind]
             got = real(lambda: self.call(obj, method, dkey, X=X))
             want = self.pristine(model, name, m.fitted, m.fitdata, method, dkey)
+            if (not self.same(got, want) and m.fitted and m.fitspec is not None
+                    and m.fitspec.canon(None) != self.inline(m.spec, model).canon(None)):
+                alt = self.pristine(model, name, m.fitted, m.fitdata, method, dkey, spec=m.fitspec)
+                if self.same(got, alt):
+                    acc.count("accepted_configuration_at_last_fit_after_direct_set_params_on_nested_object")
+                    want = alt
             self.compare(case, key, got, want, f"{name}.{method}({dkey})")
             self.touch_shared(model, m, dkey)
             self.outputs.add(hashlib.md5(repr(got).encode()).hexdigest())
@@ -440,6 +454,7 @@ class Explorer:
             self.compare(case, key, got, want, f"{name}.fit_predict({dkey})")
             if got[0] == "ok":
                 m.fitted, m.fitdata = True, dkey
+                m.fitspec = self.inline(m.spec, model)
                 self.touch_shared(model, m, dkey)
             else:
                 cont = False
@@ -451,6 +466,7 @@ class Explorer:
                 acc.violation("fit-outcome", case, f"{name}.fit({dkey}) -> {got}, pristine object -> {wantfit}", key)
             if got[0] == "ok":
                 m.fitted, m.fitdata = True, dkey
+                m.fitspec = self.inline(m.spec, model)
                 self.touch_shared(model, m, dkey)
             else:
                 cont = False
@@ -462,6 +478,7 @@ class Explorer:
                 cont = False
             else:
                 m.fitdata = newdata
+                m.fitspec = self.inline(m.spec, model)
                 self.touch_shared(model, m, newdata)
                 gotp = real(lambda: self.call(obj, "fitted_params", None))
                 wantp = self.pristine(model, name, True, newdata, "fitted_params", None)
@@ -510,7 +527,7 @@ class Explorer:
                 world[name] = got[1]
                 # the clone owns copies of everything it referenced
                 m.spec = self.inline(m.spec, model)
-                m.fitted, m.fitdata, m.extra, m.stale = False, None, frozenset(), False
+                m.fitted, m.fitdata, m.extra, m.stale, m.fitspec = False, None, frozenset(), False, None
         elif kind == "getp":
             real(lambda: obj.get_params(deep=True))
         elif kind == "mutate":
@@ -576,7 +593,7 @@ class Explorer:
 
     def model_set(self, model, name, pkey, val):
         m = model[name]
-        m.fitted, m.fitdata, m.extra, m.stale = False, None, frozenset(), False
+        m.fitted, m.fitdata, m.extra, m.stale, m.fitspec = False, None, frozenset(), False, None
         head, _, rest = pkey.partition("__")
         if not rest:
             m.spec.params[head] = val.copy() if isinstance(val, Spec) else val
